@@ -174,6 +174,9 @@ def build_arg(ty, w):
     """witness json -> concrete python/numpy argument for a declared type"""
     if isinstance(w, dict) and w.get("__dataset__"):
         return build_dataset(w)
+    if isinstance(w, dict) and "__namespace__" in w:
+        import types as _t
+        return _t.SimpleNamespace(**w["__namespace__"])
     if isinstance(ty, dict):
         return {k: build_arg(t, w[k]) for k, t in ty.items()}
     if isinstance(ty, (list, tuple)):
@@ -230,10 +233,14 @@ def run_contract(rt, cc, func, args_by_name, call=None):
     pre_ns = {k: copy.deepcopy(v) if isinstance(v, (np.ndarray, list, dict)) else v for k, v in args_by_name.items()}
     try:
         result = call() if call is not None else func(*[args_by_name[p] for p in cc.params if p in args_by_name])
+        if isinstance(result, tuple) and type(result).__name__ == "Window":
+            pass
     except BaseException as e:  # SystemExit included
         out["raised"] = type(e).__name__
         out["raise_msg"] = str(e)[:300]
         result = None
+    if type(result).__name__ == "Window" and hasattr(result, "col_off"):
+        result = ("Window", result.col_off, result.row_off, result.width, result.height)
     out["result"] = summarize(result)
     if out["raised"]:
         ok = out["raised"] in cc.may_raise
@@ -295,6 +302,7 @@ def replay(path):
     args = {}
     for p in cc.params:
         if p in ("self", "cls") and p not in cc.types:
+            args[p] = None
             continue
         ty = cc.types[p]
         if isinstance(ty, str) and ty.startswith("func:"):
@@ -339,6 +347,7 @@ def default_sample(cc, rng):
     args = {}
     for p in cc.params:
         if p in ("self", "cls") and p not in cc.types:
+            args[p] = None
             continue
         ty = cc.types[p]
         if isinstance(ty, str) and ty.startswith("func:"):
@@ -427,6 +436,10 @@ def fuzz(rt, target, n, seed, contract=None, time_budget=30.0):
 
 
 def summarize_full(v):
+    if type(v).__name__ == "SimpleNamespace":
+        return {"__namespace__": {k: summarize_full(x) for k, x in vars(v).items()}}
+    if isinstance(v, dict):
+        return {k: summarize_full(x) for k, x in v.items()}
     if hasattr(v, "data_vars") and hasattr(v, "coords"):  # xarray.Dataset
         return {"__dataset__": True,
                 "vars": {k: {"dims": list(v[k].dims), "value": summarize_full(np.asarray(v[k].data))} for k in v.data_vars},
